@@ -22,6 +22,12 @@ _MUTABLE = (dict, list, set, bytearray, collections.deque, collections.ChainMap,
             collections.OrderedDict, collections.defaultdict, collections.Counter)
 
 
+import logging  # noqa: E402
+import re  # noqa: E402
+
+_INERT = (re.Pattern, logging.Logger, logging.LoggerAdapter)
+
+
 class Hotness:
     def __init__(self) -> None:
         self.module_mutables: Dict[str, Set[str]] = {}   # filename -> names of mutable globals
@@ -49,6 +55,12 @@ class Hotness:
                         # a class-level data attribute that can change: a mutable container, or a
                         # None placeholder that is filled in later (e.g. a lazily built singleton)
                         if av is None or isinstance(av, _MUTABLE):
+                            self.class_attrs.add(ak)
+                        elif (hasattr(av, "__dict__") and not callable(av)
+                              and not isinstance(av, _INERT)
+                              and not isinstance(av, (types.FunctionType, staticmethod, classmethod,
+                                                      property, type))):
+                            # an ordinary object kept on the class (e.g. a shared scratch instance)
                             self.class_attrs.add(ak)
             self.module_mutables[fn] = muts
 
